@@ -51,6 +51,17 @@ def run_case(c):
     out["roundtrip"] = [int(fr.get_index(fr.get_frequency(j))) for j in pj]
     out["index_of_fs"] = [int(fr.get_index(fr.fs[j])) for j in pj]
     out["get_index"] = [int(fr.get_index(fh(f))) for f in c["freqs"]]
+    # the same frequencies handed over with units (Hz, kHz, MHz, GHz) and as one array
+    out["get_index_units"] = {}
+    for name, un, sc in (("Hz", u.Hz, 1.0), ("kHz", u.kHz, 1e3), ("MHz", u.MHz, 1e6), ("GHz", u.GHz, 1e9)):
+        try:
+            out["get_index_units"][name] = [int(fr.get_index((fh(f) / sc) * un)) for f in c["freqs"]]
+        except Exception as ex:
+            out["get_index_units"][name] = "raised %s" % type(ex).__name__
+    try:
+        out["get_index_array"] = [int(x) for x in np.asarray(fr.get_index(np.array([fh(f) for f in c["freqs"]])))]
+    except Exception as ex:
+        out["get_index_array"] = "raised %s" % type(ex).__name__
     out["drift_rate"] = hx(fr.get_drift_rate(pj[0], pj[-1])) if pj else None
     # whole-axis facts
     out["increasing"] = bool(np.all(np.diff(fr.fs) > 0)) if F > 1 else True
